@@ -610,9 +610,9 @@ func guardedGeq(x, y ssa.Value, at *ssa.BasicBlock) bool {
 // makeSizeReviewed: allocations whose size is non-negative for a reason the prover cannot see (one function each).
 var makeSizeReviewed = map[string]string{
 	"(*pkg/packet/bgp.PathAttributeMpReachNLRI).DecodeFromBytes": "len(nexthopbin)-8 inside the case nexthoplen == 56 of the switch on the length of that very slice",
-	"(*pkg/server.BgpServer).softResetOut":                        "len(negotiatedRFList())-1 inside the branch IsFamilyEnabled(RTC): the negotiated list holds at least the RTC family",
-	"internal/pkg/table.NewBitmap":                                "called with the configured local-id map size, math.MaxUint8 and a uint32 label-range width; never negative",
-	"pkg/server.readAll":                                          "called with the header length constant and with hd.Len-19 after BGPHeader.DecodeFromBytes has refused hd.Len < 19",
+	"(*pkg/server.BgpServer).softResetOut":                       "len(negotiatedRFList())-1 inside the branch IsFamilyEnabled(RTC): the negotiated list holds at least the RTC family",
+	"internal/pkg/table.NewBitmap":                               "called with the configured local-id map size, math.MaxUint8 and a uint32 label-range width; never negative",
+	"pkg/server.readAll":                                         "called with the header length constant and with hd.Len-19 after BGPHeader.DecodeFromBytes has refused hd.Len < 19",
 }
 
 // ruleMakeSizeNonNeg: every make([]T, n, m) of the given files has sizes that are proven non-negative.
